@@ -235,6 +235,8 @@ class Report:
 
     def ob(self, rule, instance, ok, detail='', loc=None, reason='rule', expected=None, found=None):
         """record one obligation; a failed one becomes a violation keyed without line numbers"""
+        if rule is None:
+            return          # the caller switched this rule of a shared rule library off for its property
         self.obligations.append({'rule': rule, 'instance': instance, 'ok': bool(ok)})
         if not ok:
             self.violation(rule, instance, detail, loc=loc, reason=reason, expected=expected, found=found)
@@ -258,6 +260,8 @@ class Report:
 
     def floor(self, rule, what, count, minimum):
         """fail closed when a rule matched fewer instances than were confirmed by reading"""
+        if rule is None:
+            return
         # counted instances on the confirmed tree are `minimum`; small benign removals (an unused accessor, a merged
         # branch) must not raise an alarm, a rule that lost most of its instances must: the effective floor is 75 %
         eff = minimum if minimum <= 3 else int(minimum * 0.75)
